@@ -39,6 +39,9 @@ type instrumenter struct {
 	sites    []site
 	// unsupported sync primitives seen (World A only)
 	unsupported []string
+	selects     int
+	// the package starts goroutines itself and this build runs every call under the scheduler (World B)
+	libGoroutines bool
 }
 
 type splice struct {
@@ -207,10 +210,11 @@ func (in *instrumenter) instrumentFile(path, rel string) error {
 				return true
 			}
 			switch se.Sel.Name {
-			case "Pool", "Mutex", "RWMutex", "Once":
+			case "Pool", "Mutex", "RWMutex", "Once", "WaitGroup":
 				sp = append(sp, splice{off: off(id.Pos()), del: len(id.Name), text: "verifrt"})
 				swapped = true
-			case "Locker":
+			case "Locker", "Map":
+				// never block a caller while another one is descheduled: left as they are
 			default:
 				in.unsupported = append(in.unsupported, fmt.Sprintf("%s:%d sync.%s", rel, fset.Position(se.Pos()).Line, se.Sel.Name))
 			}
@@ -218,11 +222,198 @@ func (in *instrumenter) instrumentFile(path, rel string) error {
 		})
 	}
 	if in.swapSync {
-		// channels / go statements between tasks are not simulated either
+		// real timers cannot be waited for by polling tasks (no simulated clock in these worlds)
+		ast.Inspect(f, func(n ast.Node) bool {
+			se, ok := n.(*ast.SelectorExpr)
+			if !ok {
+				return true
+			}
+			if id, ok := se.X.(*ast.Ident); ok && id.Name == "time" && id.Obj == nil {
+				switch se.Sel.Name {
+				case "After", "AfterFunc", "NewTimer", "NewTicker", "Tick", "Sleep":
+					in.unsupported = append(in.unsupported, fmt.Sprintf("%s:%d time.%s", rel, fset.Position(se.Pos()).Line, se.Sel.Name))
+				}
+			}
+			return true
+		})
+		// channel operations become polling ones that pass the baton (verifrt/chan.go);
+		// go statements and blocking selects between tasks are not simulated
+		twoValue := map[ast.Expr]bool{}
+		inComm := map[ast.Node]bool{}
 		ast.Inspect(f, func(n ast.Node) bool {
 			switch x := n.(type) {
 			case *ast.GoStmt:
-				in.unsupported = append(in.unsupported, fmt.Sprintf("%s:%d go statement", rel, fset.Position(x.Pos()).Line))
+				// `go f(a, b)` -> verifrt.Go2(f, a, b): function value and arguments are
+				// still evaluated by the starting goroutine, the call runs as a new task
+				n := len(x.Call.Args)
+				if n > 8 || x.Call.Ellipsis.IsValid() {
+					in.unsupported = append(in.unsupported, fmt.Sprintf("%s:%d go statement with more than 8 or variadic arguments", rel, fset.Position(x.Pos()).Line))
+					return true
+				}
+				if n == 0 {
+					sp = append(sp, splice{off: off(x.Go), del: 2, text: "verifrt.Go("})
+					sp = append(sp, splice{off: off(x.Call.Lparen), del: 1, text: ""})
+				} else {
+					sp = append(sp, splice{off: off(x.Go), del: 2, text: fmt.Sprintf("verifrt.Go%d(", n)})
+					sp = append(sp, splice{off: off(x.Call.Lparen), del: 1, text: ", "})
+				}
+				swapped = true
+			case *ast.AssignStmt:
+				if len(x.Lhs) == 2 && len(x.Rhs) == 1 {
+					twoValue[x.Rhs[0]] = true
+				}
+			case *ast.ValueSpec:
+				if len(x.Names) == 2 && len(x.Values) == 1 {
+					twoValue[x.Values[0]] = true
+				}
+			case *ast.SelectStmt:
+				// A select picks among ready cases at random (runtime fastrand): under the
+				// simulator the choice must be the plan's. Rewritten into a loop that enables
+				// one case per iteration (all others see a nil channel), starting at a
+				// plan-chosen case and passing the baton after every full round:
+				//   for c0, c1, s, t := <ch0>, <ch1>, verifrt.SelectStart(2), 0; ; t++ {
+				//     select { case v := <-verifrt.Only(s+t, 2, 0, c0): ...  case verifrt.OnlySend(s+t, 2, 1, c1) <- x: ...
+				//              default: verifrt.SelectSpin(t, 2); continue }
+				//     break }
+				// Channel operands (and sent values) are evaluated once, on entry, as the
+				// language requires. A select with a default keeps it: it runs after one
+				// full round without a ready case.
+				var defClause *ast.CommClause
+				type commInfo struct {
+					send    bool
+					ch, val ast.Expr
+				}
+				var comms []commInfo
+				okRewrite := true
+				for _, c := range x.Body.List {
+					cc := c.(*ast.CommClause)
+					if cc.Comm == nil {
+						defClause = cc
+						continue
+					}
+					switch cs := cc.Comm.(type) {
+					case *ast.SendStmt:
+						inComm[cs] = true
+						comms = append(comms, commInfo{true, cs.Chan, cs.Value})
+					case *ast.ExprStmt:
+						inComm[cs.X] = true
+						if u, ok := cs.X.(*ast.UnaryExpr); ok && u.Op == token.ARROW {
+							comms = append(comms, commInfo{false, u.X, nil})
+						} else {
+							okRewrite = false
+						}
+					case *ast.AssignStmt:
+						if len(cs.Rhs) == 1 {
+							inComm[cs.Rhs[0]] = true
+							if u, ok := cs.Rhs[0].(*ast.UnaryExpr); ok && u.Op == token.ARROW {
+								comms = append(comms, commInfo{false, u.X, nil})
+							} else {
+								okRewrite = false
+							}
+						} else {
+							okRewrite = false
+						}
+					}
+				}
+				n := len(comms)
+				if n == 0 {
+					return true // `select {}` blocks for ever (wedge detector)
+				}
+				line := fset.Position(x.Pos()).Line
+				simple := func(e ast.Expr) bool {
+					plain := true
+					ast.Inspect(e, func(n ast.Node) bool {
+						switch y := n.(type) {
+						case *ast.FuncLit:
+							plain = false
+						case *ast.UnaryExpr:
+							if y.Op == token.ARROW {
+								plain = false
+							}
+						}
+						return plain
+					})
+					return plain
+				}
+				for _, ci := range comms {
+					if !simple(ci.ch) || (ci.val != nil && !simple(ci.val)) {
+						okRewrite = false
+					}
+				}
+				if !okRewrite || hasBareContinue(x.Body) {
+					in.unsupported = append(in.unsupported, fmt.Sprintf("%s:%d select the simulator cannot rewrite (unlabeled continue in a case, or a channel operand containing a receive or function literal)", rel, line))
+					return true
+				}
+				in.selects++
+				tag := fmt.Sprintf("%d", in.selects)
+				var names, vals []string
+				ci0 := 0
+				for _, c := range x.Body.List {
+					// a case that fired may have completed a rendezvous with a parked partner
+					cc := c.(*ast.CommClause)
+					if cc.Comm == nil {
+						continue
+					}
+					fn := "WokeRecv"
+					if comms[ci0].send {
+						fn = "WokeSend"
+					}
+					sp = append(sp, splice{off: off(cc.Colon) + 1, text: fmt.Sprintf(" verifrt.%s(verifC%s_%d); ", fn, tag, ci0)})
+					ci0++
+				}
+				for i, ci := range comms {
+					cn := fmt.Sprintf("verifC%s_%d", tag, i)
+					names = append(names, cn)
+					vals = append(vals, string(src[off(ci.ch.Pos()):off(ci.ch.End())]))
+					if ci.send {
+						sp = append(sp, splice{off: off(ci.ch.Pos()), del: off(ci.ch.End()) - off(ci.ch.Pos()), text: fmt.Sprintf("verifrt.OnlySend(verifS%s+verifT%s, %d, %d, %s)", tag, tag, n, i, cn)})
+						if _, lit := ci.val.(*ast.BasicLit); !lit {
+							vn := fmt.Sprintf("verifV%s_%d", tag, i)
+							names = append(names, vn)
+							vals = append(vals, string(src[off(ci.val.Pos()):off(ci.val.End())]))
+							sp = append(sp, splice{off: off(ci.val.Pos()), del: off(ci.val.End()) - off(ci.val.Pos()), text: vn})
+						}
+					} else {
+						sp = append(sp, splice{off: off(ci.ch.Pos()), del: off(ci.ch.End()) - off(ci.ch.Pos()), text: fmt.Sprintf("verifrt.Only(verifS%s+verifT%s, %d, %d, %s)", tag, tag, n, i, cn)})
+					}
+				}
+				names = append(names, "verifS"+tag, "verifT"+tag)
+				vals = append(vals, fmt.Sprintf("verifrt.SelectStart(%d)", n), "0")
+				sp = append(sp, splice{off: off(x.Select), text: fmt.Sprintf("for %s := %s; ; verifT%s++ { ", strings.Join(names, ", "), strings.Join(vals, ", "), tag)})
+				if defClause != nil {
+					sp = append(sp, splice{off: off(defClause.Colon) + 1, text: fmt.Sprintf(" if verifrt.SelectMore(verifT%s, %d) { continue }; ", tag, n)})
+				} else {
+					sp = append(sp, splice{off: off(x.Body.Rbrace), text: fmt.Sprintf("default: verifrt.SelectSpin(verifT%s, %d); continue; ", tag, n)})
+				}
+				sp = append(sp, splice{off: off(x.Body.Rbrace) + 1, text: "; break }"})
+				swapped = true
+			case *ast.RangeStmt:
+				// a range over a channel cannot be told from the syntax alone; the
+				// scheduler's wedge detector reports it (exit 2) if it ever blocks
+			case *ast.CallExpr:
+				if id, ok := x.Fun.(*ast.Ident); ok && id.Name == "close" && id.Obj == nil && len(x.Args) == 1 {
+					sp = append(sp, splice{off: off(id.Pos()), del: 5, text: "verifrt.Close"})
+					swapped = true
+				}
+			case *ast.SendStmt:
+				if inComm[x] {
+					return true
+				}
+				sp = append(sp, splice{off: off(x.Pos()), text: "verifrt.Send("})
+				sp = append(sp, splice{off: off(x.Arrow), del: 2, text: ", "})
+				sp = append(sp, splice{off: off(x.End()), text: ")"})
+				swapped = true
+			case *ast.UnaryExpr:
+				if x.Op != token.ARROW || inComm[x] {
+					return true
+				}
+				fn := "verifrt.Recv("
+				if twoValue[x] {
+					fn = "verifrt.Recv2("
+				}
+				sp = append(sp, splice{off: off(x.Pos()), del: 2, text: fn})
+				sp = append(sp, splice{off: off(x.End()), text: ")"})
+				swapped = true
 			}
 			return true
 		})
@@ -243,10 +434,30 @@ func (in *instrumenter) instrumentFile(path, rel string) error {
 		last = s.off + s.del
 	}
 	out.Write(src[last:])
-	if swapped {
+	if swapped && syncName != "" {
 		fmt.Fprintf(&out, "\nvar _ %s.Locker\n", syncName)
 	}
 	return os.WriteFile(path, out.Bytes(), 0o644)
+}
+
+// hasBareContinue: does the select body contain an unlabeled continue that binds
+// outside the select (i.e. not inside a loop or function literal nested in a case)?
+func hasBareContinue(body *ast.BlockStmt) bool {
+	found := false
+	var visit func(n ast.Node) bool
+	visit = func(n ast.Node) bool {
+		switch x := n.(type) {
+		case *ast.ForStmt, *ast.RangeStmt, *ast.FuncLit:
+			return false
+		case *ast.BranchStmt:
+			if x.Tok == token.CONTINUE && x.Label == nil {
+				found = true
+			}
+		}
+		return !found
+	}
+	ast.Inspect(body, visit)
+	return found
 }
 
 func recvName(e ast.Expr) string {
@@ -268,6 +479,40 @@ func (in *instrumenter) writeSiteTable(dir string) error {
 	for _, s := range in.sites {
 		fmt.Fprintf(&b, "\t\t{%d, %q, %d, %q, %v},\n", s.ID, s.File, s.Line, s.Func, s.Pool)
 	}
-	b.WriteString("\t}\n}\n")
+	b.WriteString("\t}\n")
+	if in.libGoroutines {
+		b.WriteString("\tLibGoroutines = true\n")
+	}
+	b.WriteString("}\n")
 	return os.WriteFile(filepath.Join(dir, "verif_sites.go"), b.Bytes(), 0o644)
+}
+
+// packageStartsGoroutines: does a non-test file of the package in dir contain a go statement?
+func packageStartsGoroutines(dir string) bool {
+	ents, err := os.ReadDir(dir)
+	if err != nil {
+		return false
+	}
+	for _, e := range ents {
+		n := e.Name()
+		if e.IsDir() || !strings.HasSuffix(n, ".go") || strings.HasSuffix(n, "_test.go") || strings.HasSuffix(n, "_wasm.go") {
+			continue
+		}
+		fset := token.NewFileSet()
+		f, err := parser.ParseFile(fset, filepath.Join(dir, n), nil, parser.SkipObjectResolution)
+		if err != nil {
+			continue
+		}
+		found := false
+		ast.Inspect(f, func(n ast.Node) bool {
+			if _, ok := n.(*ast.GoStmt); ok {
+				found = true
+			}
+			return !found
+		})
+		if found {
+			return true
+		}
+	}
+	return false
 }
